@@ -199,6 +199,20 @@ class CliApp(Application):
 
 
 _subclass_cache = {}
+EXTRA_DT = {'real': Real, 'uns': Unsigned, 'str': CharacterString}
+
+
+def declared_props(cls):
+    """property table of a class recomputed from the static `properties` lists along the MRO (what the class DECLARES),
+    independent of the dictionaries the library keeps and mutates at run time"""
+    d = {}
+    for c in cls.__mro__:
+        for prop in getattr(c, 'properties', []):
+            if prop.identifier not in d:
+                d[prop.identifier] = prop
+    if 'objectType' not in d:
+        d['objectType'] = Property('objectType', bobj.ObjectType, None, optional=False, mutable=False)
+    return d
 
 
 def make_class(clsname, writable):
@@ -228,7 +242,7 @@ class Run:
         self.dev = VlanStack(w, stack_cfg('dev', 20, 'server', maxApdu=desc.get('dev_apdu', 1024), retries=2, tout=2000, tseg=500), lan, app_class=DevApp)
         self.objs = {}
         self.schema = {}
-        for o in desc['objects']:
+        for o in sorted(desc['objects'], key=lambda o_: o_.get('order', 1)):
             if o.get('cmd'):
                 from .c17 import get_class
                 cls = get_class(o['cls'])
@@ -242,6 +256,10 @@ class Run:
                 if issubclass(dt, Array):
                     v = dt(v)       # arrays are held as ArrayOf instances (index 0 = length)
                 obj.WriteProperty(pid, v, direct=True)
+            # a proprietary property added to THIS instance only (Object.add_property); siblings of the class must not get it
+            for ex in o.get('extra', []):
+                obj.add_property(Property(ex['pid'], EXTRA_DT[ex['value'][0]], optional=True, mutable=True))
+                obj.WriteProperty(ex['pid'], to_py(ex['value']), direct=True)
             self.dev.app.add_object(obj)
             self.objs[o['name']] = obj
         # the device object itself (also addressed by the wildcard instance 4194303)
@@ -396,11 +414,16 @@ class Store:
         self.unmodelled = set()     # had a value once, the harness lost track of it (array grown with default elements)
         self.by_id = {}
         self.cmd = {}
+        self.schema = {}
         for o in run.desc['objects']:
             obj = run.objs[o['name']]
             self.by_id[(obj.objectIdentifier[0], obj.objectIdentifier[1])] = (o, obj)
             for pid, spec in o.get('init', {}).items():
                 self.vals[(o['name'], pid)] = spec
+            self.schema[o['name']] = declared_props(type(obj))
+            for ex in o.get('extra', []):
+                self.schema[o['name']][ex['pid']] = Property(ex['pid'], EXTRA_DT[ex['value'][0]], optional=True, mutable=True)
+                self.vals[(o['name'], ex['pid'])] = ex['value']
             if o.get('cmd'):
                 # 16 command slots of a commandable analog value; the default is what the object holds after construction
                 self.cmd[o['name']] = {'slots': [None] * 16, 'default': ['real', float(obj.relinquishDefault)]}
@@ -410,6 +433,11 @@ class Store:
         self.device_key = ('device', dev.objectIdentifier[1])
         for pid, spec in devo['init'].items():
             self.vals[('DEV', pid)] = spec
+
+    def props(self, o, obj):
+        """the properties an object has: what its class declares plus what the harness added to that instance (the device
+        object keeps the library's own table: services add properties to it)"""
+        return self.schema.get(o['name']) or obj._properties
 
     def lookup(self, objid):
         t, n = objid
@@ -427,7 +455,7 @@ class Store:
         if ent is None:
             return ERR('object', 'unknownObject')
         o, obj = ent
-        p = obj._properties.get(prop)
+        p = self.props(o, obj).get(prop)
         if p is None:
             return ERR('property', 'unknownProperty')
         key = (o['name'], prop)
@@ -460,7 +488,7 @@ class Store:
         if ent is None:
             return {ERR('object', 'unknownObject')}, None
         o, obj = ent
-        p = obj._properties.get(op['prop'])
+        p = self.props(o, obj).get(op['prop'])
         if p is None:
             return {ERR('property', 'unknownProperty')}, None
         key = (o['name'], op['prop'])
@@ -518,7 +546,7 @@ class Store:
             m = self.cmd[key[1]]
             m['slots'][(op.get('prio') or 16) - 1] = None if op['value'][0] == 'null' else copy.deepcopy(op['value'])
             return
-        dt = self.lookup(tuple(op['obj']))[1]._properties[op['prop']].datatype
+        dt = self.props(*self.lookup(tuple(op['obj'])))[op['prop']].datatype
         idx = op.get('idx')
         if idx is None:
             self.vals[key] = copy.deepcopy(op['value'])
@@ -622,9 +650,9 @@ def check(run, res):
         elif op['op'] == 'rpm':
             _check_rpm(viol, store, op, opi, got, resp)
     # at the end: every modelled value must still read back (all-or-nothing / nothing else changed)
-    for (oname, pid), spec in sorted(store.vals.items()):
+    for (oname, pid), spec in sorted(store.vals.items(), key=lambda kv: (kv[0][0], str(kv[0][1]))):
         obj = run.objs[oname]
-        dt = obj._properties[pid].datatype
+        dt = (store.schema.get(oname) or obj._properties)[pid].datatype
         try:
             cur = obj.ReadProperty(pid)
             a = Any()
@@ -713,7 +741,7 @@ def _check_rpm(viol, store, op, opi, got, resp):
                     continue
                 o, obj = ent
                 want = []
-                for propId, prop in obj._properties.items():
+                for propId, prop in store.props(o, obj).items():
                     if propId == 'propertyList':
                         continue
                     if pid == 'required' and prop.optional:
@@ -722,22 +750,22 @@ def _check_rpm(viol, store, op, opi, got, resp):
                         continue
                     want.append(propId)
                 have = set(k[0] for k in by_prop)
-                extra = have - set(want)
+                extra = have - set(str(x) for x in want)
                 # listed selectors may be combined with explicit references in the same spec
-                explicit = set(x['prop'] for x in s['refs'] if x['prop'] not in ('all', 'required', 'optional'))
+                explicit = set(str(x['prop']) for x in s['refs'] if x['prop'] not in ('all', 'required', 'optional'))
                 extra -= explicit
                 if extra and len([x for x in s['refs'] if x['prop'] in ('all', 'required', 'optional')]) == 1:
                     viol('C15.d', 'rpm-selector-extra', "op #%d: selector '%s' on %r returned properties outside the selection: %r" % (opi, pid, objid, sorted(extra)[:5]), selector=pid)
                 for propId in want:
                     exp = store.read(objid, propId, idx)
-                    es = by_prop.get((propId, idx), [])
+                    es = by_prop.get((str(propId), idx), [])
                     if exp[0] == 'value' and not es:
                         viol('C15.d', 'rpm-selector-missing', "op #%d: selector '%s' on %r does not return %s although it has a value" % (opi, pid, objid, propId), selector=pid)
                     for e in es:
                         _cmp_rpm_elem(viol, opi, objid, propId, idx, exp, e)
             else:
                 exp = store.read(objid, pid, idx)
-                es = by_prop.get((pid, idx), [])
+                es = by_prop.get((str(pid), idx), [])
                 if not es:
                     viol('C15.d', 'rpm-element-missing', 'op #%d: no result element for %r %s[%r]' % (opi, objid, pid, idx))
                     continue
@@ -816,6 +844,25 @@ def gen_desc(seed, idx):
     has_cmd = rng.random() < 0.4
     if has_cmd:
         objects.append({'cls': 'AnalogValueCmdObject', 'inst': 77, 'name': 'cmd0', 'writable': [], 'init': {}, 'type': 'analogValue', 'cmd': True})
+    # a proprietary property added to ONE instance, and a sibling of the same class that must not have it
+    extra_ops = []
+    if rng.random() < 0.3:
+        k = rng.randrange(nobj)
+        o = objects[k]
+        sib = {'cls': o['cls'], 'inst': o['inst'] + 50, 'name': o['name'] + 'sib', 'writable': list(o['writable']), 'init': {}, 'type': o['type']}
+        if rng.random() < 0.5:
+            sib['order'] = 0            # (either may be created first)
+        objects.append(sib)
+        xpid = rng.choice([600, 1001, 2000])
+        xval = rng.choice([['real', 2.5], ['uns', 7], ['str', 'abc']])
+        o['extra'] = [{'pid': xpid, 'value': xval}]
+        oid, sid = [o['type'], o['inst']], [sib['type'], sib['inst']]
+        newval = {'real': ['real', 8.25], 'uns': ['uns', 9], 'str': ['str', 'xyz']}[xval[0]]
+        extra_ops = [{'op': 'rp', 'obj': oid, 'prop': xpid}, {'op': 'rp', 'obj': sid, 'prop': xpid}, {'op': 'wp', 'obj': sid, 'prop': xpid, 'value': newval},
+                     {'op': 'wp', 'obj': oid, 'prop': xpid, 'value': newval}, {'op': 'rp', 'obj': oid, 'prop': xpid}, {'op': 'rp', 'obj': sid, 'prop': xpid},
+                     {'op': 'rpm', 'specs': [{'obj': sid, 'refs': [{'prop': 'all'}]}]}, {'op': 'rpm', 'specs': [{'obj': oid, 'refs': [{'prop': 'all'}]}]},
+                     {'op': 'rpm', 'specs': [{'obj': sid, 'refs': [{'prop': xpid}, {'prop': 'objectName'}]}]}]
+        extra_ops = [dict(x, c=0, gap=0.0) for x in extra_ops if rng.random() < 0.8]
     dev_props = ['vendorIdentifier', 'maxApduLengthAccepted', 'numberOfApduRetries', 'apduTimeout', 'apduSegmentTimeout', 'maxSegmentsAccepted', 'segmentationSupported']
     nops = rng.randint(5, 60)
     ops = []
@@ -918,6 +965,9 @@ def gen_desc(seed, idx):
                 ops.append({'op': 'rp', 'obj': ['analogValue', 77], 'prop': 'priorityArray', 'idx': rng.choice([None, None, 0, 1, 8, 16, 17, rng.randint(1, 16)]), 'c': 0, 'gap': 0.0})
             if rng.random() < 0.15:
                 ops.append({'op': 'rpm', 'specs': [{'obj': ['analogValue', 77], 'refs': [{'prop': 'presentValue'}, {'prop': 'priorityArray'}, {'prop': 'priorityArray', 'idx': rng.choice([0, 8, 16, 17])}]}], 'c': 0, 'gap': 0.0})
+    pos = sorted(rng.randrange(len(ops) + 1) for _ in extra_ops)
+    for off, (i_, x) in enumerate(zip(pos, extra_ops)):
+        ops.insert(i_ + off, x)
     tout, tseg = 2.0, 0.5
     faults = fault_profile(rng, tout, tseg, allow_none=0.4)
     return {'prop': 'C15', 'seed': H(seed, 'C15run', idx) & 0x7fffffff, 'objects': objects, 'ops': ops, 'nclients': rng.choice([1, 2]),
@@ -1008,7 +1058,7 @@ def type_sweep_descs(seed, mod, rem):
 
 def units(tier, seed):
     us = [{'kind': 'types', 'must': True, 'seed': seed, 'mod': 16, 'rem': r} for r in range(16)]
-    n = 6000 if tier == 'thorough' else 500
+    n = 6000 if tier == 'thorough' else 900
     for k in range(n):
         us.append({'kind': 'explore', 'seed': seed, 'start': k * 15, 'count': 15})
     return us
